@@ -628,5 +628,73 @@ func (e *Enc) arrayLeafSorts(t types.Type) ([]Sort, bool) {
 		}
 		return out, true
 	}
+	if st, ok := at.Elem().Underlying().(*types.Struct); ok && at.Len() <= 16 {
+		var out []Sort
+		for i := 0; i < st.NumFields(); i++ {
+			ft := st.Field(i).Type()
+			if isAggregate(ft) {
+				return nil, false
+			}
+			for _, l := range e.Leaves(ft) {
+				out = append(out, SArr(e.Idx(), l.Sort))
+			}
+		}
+		return out, true
+	}
 	return nil, false
 }
+
+// elemOfAV extracts element idx of an array value.
+func (e *Enc) elemOfAV(av *AV, idx Term) Val {
+	at := av.T.Underlying().(*types.Array)
+	switch u := at.Elem().Underlying().(type) {
+	case *types.Array:
+		inner := &AV{T: at.Elem()}
+		for _, l := range av.L {
+			inner.L = append(inner.L, mkSelect(l, idx))
+		}
+		return inner
+	case *types.Struct:
+		sv := &SV{T: at.Elem()}
+		k := 0
+		for i := 0; i < u.NumFields(); i++ {
+			ft := u.Field(i).Type()
+			fv := &FV{T: ft}
+			for range e.Leaves(ft) {
+				fv.L = append(fv.L, mkSelect(av.L[k], idx))
+				k++
+			}
+			sv.F = append(sv.F, fv)
+		}
+		return sv
+	}
+	out := &FV{T: at.Elem()}
+	for _, l := range av.L {
+		out.L = append(out.L, mkSelect(l, idx))
+	}
+	return out
+}
+
+// setElemOfAV returns the array value with element idx replaced.
+func (e *Enc) setElemOfAV(av *AV, idx Term, v Val, def func(Term) Term) *AV {
+	out := &AV{T: av.T}
+	var leaves []Term
+	switch x := v.(type) {
+	case *FV:
+		leaves = x.L
+	case *AV:
+		leaves = x.L
+	case *SV:
+		for _, f := range x.F {
+			leaves = append(leaves, f.(*FV).L...)
+		}
+	}
+	if len(leaves) != len(av.L) {
+		panic("setElemOfAV: leaf mismatch")
+	}
+	for i, l := range av.L {
+		out.L = append(out.L, def(mkStore(l, idx, leaves[i])))
+	}
+	return out
+}
+
